@@ -67,7 +67,10 @@ def run(chk):
             alts = alts[:2] + r.sample(alts[2:], min(1, len(alts) - 2))
         for idx in alts:
             for full in (False, True):
-                if full and it.order >= 3 and quick:
+                if full and it.order >= 3 and (quick or idx not in alts[:2]):
+                    # fully expanded third-order definitions come with
+                    # multiplied-out denominators (MBs of AST): two index
+                    # tuples, thorough tier only
                     continue
                 what = f"Intermediates().{name}.expand_itmd('{idx}', fully_expand={full})"
                 res, exc = guarded(it.expand_itmd, idx, False, full)
@@ -89,6 +92,14 @@ def run(chk):
                     chk.machinery_errors.append(f"{what}: {u}")
                     continue
                 ev["text"]["post"] = ev["text"]["post"][:300]
+                import json as _json
+                if len(_json.dumps(ev["post"])) > 300_000:
+                    # huge polynomial denominators: the smallest models only
+                    small = min(ev["_sizes"], key=lambda z: (z[0] * z[1], z))
+                    ev["models"] = [m for m, z in zip(ev["models"],
+                                                      ev["_sizes"])
+                                    if z == small]
+                    ev["_sizes"] = [small] * len(ev["models"])
                 if ev["_mincost"] > 2.5e7:
                     # one event is one TLC state (one worker): fully expanded
                     # third-order definitions are beyond ~10 min even on the
